@@ -288,14 +288,20 @@ def handle (op : String) (c i : Json) : Except String (Json × String) := do
     -- i = {"core": the lines of the frame section, the BO_TX_BU_ lines, the frame comments and the signal comments of the real file}
     if !J.isNull (J.keyD i "skipped" Json.null) then return (J.obj [], "ok")
     let optStr (j : Json) : Except String (Option Str) := if J.isNull j then pure none else do pure (some (← J.str j).toList)
+    let pairsOf0 (j : Json) : Except String (List (Str × Str)) := do
+      (← J.arr j).mapM fun e => do pure ((← J.str (← J.idx e 0)).toList, (← J.str (← J.idx e 1)).toList)
     let fs ← (← J.arr (← J.key c "frames")).mapM fun fj => do
       let sigs ← (← J.arr (← J.key fj "sigs")).mapM fun sj => do
         let vals ← (← J.arr (← J.key sj "values")).mapM fun e => do pure ((← J.int (← J.idx e 0)), (← J.str (← J.idx e 1)).toList)
         let rngs ← (← J.arr (← J.key sj "ranges")).mapM fun r => do pure ((← J.nat (← J.idx r 0)), (← J.nat (← J.idx r 1)))
+        let sat := J.keyD sj "attrs" Json.null
+        let sats ← if J.isNull sat then pure [] else pairsOf0 sat
         pure ({ sg := ← sgOf (← J.key sj "sg"), comment := ← optStr (← J.key sj "comment"), values := vals,
-                isFloat := ← J.bool (← J.key sj "float"), muxer := ← optStr (← J.key sj "muxer"), ranges := rngs } : WSig)
+                isFloat := ← J.bool (← J.key sj "float"), muxer := ← optStr (← J.key sj "muxer"), ranges := rngs, attrs := sats } : WSig)
+      let fat := J.keyD fj "attrs" Json.null
+      let fats ← if J.isNull fat then pure [] else pairsOf0 fat
       pure ({ bo := ← boOf (← J.key fj "bo"), sigs := sigs, moreSenders := (← J.strList (← J.key fj "more")).map String.toList,
-              comment := ← optStr (← J.key fj "comment"),
+              comment := ← optStr (← J.key fj "comment"), attrs := fats,
               groups := ← (← J.arr (← J.key fj "groups")).mapM fun gj => do
                 pure ({ name := (← J.str (← J.key gj "name")).toList, id := ← J.nat (← J.key gj "id"),
                         members := (← J.strList (← J.key gj "members")).map String.toList } : RGroup) } : WFrame)
@@ -321,7 +327,11 @@ def handle (op : String) (c i : Json) : Except String (Json × String) := do
         let dds ← (← J.arr (← J.key c "defaults")).mapM fun dj => do
           pure ({ name := (← J.str (← J.key dj "name")).toList, isText := ← J.bool (← J.key dj "text"), value := (← J.str (← J.key dj "value")).toList } : DefDefLine)
         let ga ← pairsOf (← J.key c "gattrs")
-        pure (J.obj [("core", J.ofStrList ((writeCoreD es ds dds ga fs).map String.ofList))], "ok")
+        -- with "fattrs" the attributes of frames and signals as well (writeCoreF)
+        if J.isNull (J.keyD c "fattrs" Json.null) then
+          pure (J.obj [("core", J.ofStrList ((writeCoreD es ds dds ga fs).map String.ofList))], "ok")
+        else
+          pure (J.obj [("core", J.ofStrList ((writeCoreF es ds dds ga fs).map String.ofList))], "ok")
   | "post" =>
     -- i = {"lines": the lines of a file, "final": the projection of the matrix dbc.load returns (names, senders, receivers, comments,
     -- attributes that are neither carriers nor ENUM)}
